@@ -344,6 +344,7 @@ func p10GlobalCallback(f, uf *ast.File) (string, error) {
 	t.condFxNeg = map[string]string{casNeg: "let s := o.takeSlot s"}
 	t.stmts = map[string]string{
 		"atomic.StoreUint32(&s.reuseBuffer, 0)":          "",
+		"verifTimerYield(1)":                             "", // c02g10's yield hook at the start of the callback: a no-op without a test gate, like a log statement
 		"atomic.StoreUint32(&s.globalTimeoutExpired, 1)": "let s := o.recordExpiry s",
 		"s.onResponseTimeout()":                          "let s := onResponseTimeout o s",
 	}
